@@ -7,7 +7,8 @@ import vlib, graphs
 
 
 def build_harness(sd):
-    return vlib.go_build("breaker", "internal/zz_verif/breaker", ["breaker/main.go"], sd, faketime=True)
+    return vlib.go_build("breaker", "internal/zz_verif/breaker", ["breaker/main.go"], sd, faketime=True,
+                         extra_overlay={"internal/loadbalancer/zz_verif_export.go": "accessors/lb_verif_export.go"})
 
 
 def gen_cfg_text(callers, cfgset, cb, tick_busy=False, outcomes='{"ok", "err", "panic"}'):
@@ -118,6 +119,11 @@ def judge(chk, trace_path, scripts, pid_clauses, concurrent=False):
     chk.add_tlc("P:ObsBreakerTrace", r)
     by_id = {s["id"]: s for s in scripts}
     n = 0
+    with open(trace_path) as fh:
+        d = sum(1 for line in fh if '"ev":"drift"' in line)
+    if d:
+        chk.cov["drift"] += d
+        vlib.log("DRIFT: %d scripted steps had no counterpart on the real breaker (code left the mechanism model M)" % d)
     for v in viols:
         for vv in v["v"]:
             if vv["clause"] not in pid_clauses:
